@@ -244,7 +244,7 @@ PROPS = {
         "lean_modules": ["TemporalModel.Props.C14"],
         "suites": ["c14"],
         "spec_ops": {"zdt_law": "zdt_law_spec", "zdt_sod": "zdt_sod_spec", "zdt_hid": "zdt_hid_spec", "du_zlaw": "du_zlaw_spec"},
-        "level_text": "Proof: C14_add_time_exact (no date units: exact instant addition, range-checked), C14_add_wall_then_exact "
+        "level_text": "Proof: C14_until_across_zones (the other value in another zone: a RangeError with a date largest unit whatever the instants, the exact instant difference with a time largest unit, option errors first), C14_add_time_exact (no date units: exact instant addition, range-checked), C14_add_wall_then_exact "
                       "(date units: date part on the wall-clock date, time of day kept, re-resolved with `compatible`, then the time "
                       "part on the exact timeline), C14_until_exact_elapsed (largest unit hours..seconds: the exact elapsed time, zone "
                       "irrelevant), C14_start_of_day_first (first instant reading midnight) and C14_start_of_day_gap (skipped "
